@@ -369,7 +369,7 @@ def run(ctx, drv):
     for _ in range(150 if ctx.tier == "quick" else 2500):
         if ctx.time_left() < 5:
             break
-        history_case(ctx, drv, c04.make_case(ctx.rng, ctx.tier))
+        history_case(ctx, drv, c04.make_case(ctx.rng, ctx.tier, big_ok=False))
 
 
 def search(ctx):
